@@ -2080,10 +2080,11 @@ func main() {
 		"families":      famNames,
 		"relay_layout":  "min: only the pair's client is configured; max: every client codec of the tier is configured (MaxHeadroom over their Info().PackerHeadroom, as service.Config.Manager does)",
 	}
-	c.Rule = "one case = one (unit, address kind, port, payload length, padding answer) tuple executed on the real code; a unit fixes part, codec(s), MTU(s), address family of the peer, padding policy, payloadStart mode / relay layout, incoming padding. All tuples are distinct by construction (states = cases); distinct_nontrivial counts (unit, address kind, port, outcome) classes; transitions = PackInPlace/UnpackInPlace/SessionInfo/NewUnpacker calls on the real code."
+	c.Rule = "one case = one (unit, address kind, port, payload length, padding answer) tuple executed on the real code; a unit fixes part, codec(s), MTU(s), address family of the peer, padding policy, payloadStart mode / relay layout, incoming padding. All tuples are distinct by construction (states = cases); distinct_nontrivial counts (unit, address kind, port, outcome) classes; transitions = PackInPlace/UnpackInPlace/SessionInfo/NewUnpacker calls on the real code. Part C: one case = one (relay instance {server, client, MTUs, batch mode}, direction, address kind, port, boundary payload length) sent through the running relay."
 	c.Assumptions = []string{
 		"uplink relay buffer layout (front headroom, receive size, buffer size) and server objects are read from the service returned by the real ServerConfig.UDPRelay through overlay_static/service/c05_export.go; client sessions come from the real ClientConfig.UDPClient + NewSession (SOCKS5: the real newSession without the TCP control connection)",
-		"downlink relay buffer = UDPRelayHeadroom(serverPacker.Headroom, clientUnpacker.Headroom).Front + clientSession.MaxPacketSize + .Rear and maxClientPacketSize = MaxPacketSizeForAddr(server MTU, client address): composed in the harness from the real functions exactly as the four relayNatConnToServerConn* loops do inline (they cannot be called without sockets)",
+		"downlink relay buffer = UDPRelayHeadroom(serverPacker.Headroom, clientUnpacker.Headroom).Front + clientSession.MaxPacketSize + .Rear and maxClientPacketSize = MaxPacketSizeForAddr(server MTU, client address): composed in the harness from the real functions exactly as the four relayNatConnToServerConn* loops do inline; those loops themselves (receive offsets, downlink buffer, maxClientPacketSize) are executed by part C on loopback sockets with boundary payload lengths, in both batch modes",
+		"part C decides forwarded/dropped by packet order (a marker packet follows every packet on the same path), never by a timeout; a marker that does not arrive within 60 s caps the run; a panic in a relay goroutine kills that worker process and is reported as a violation for the instance that was running",
 		"a packet longer than the receive size is truncated by the kernel and dropped by the relay (MSG_TRUNC); such cases are counted, not judged",
 		"clients with 2..3 identity headers are checked against reference SIP022 relays (peel one header each, written in the harness) in front of the real multi-user server",
 		"not demanded: preservation of the IPv4-mapped form of an address (the SOCKS address format has no such form; the code documents the conversion): addresses are compared after Unmap; that padding is actually applied when the policy says so; contents of bytes in front of the payload (PackInPlace may use all of b[:payloadStart]; ss2022 pads into whatever room there is, beyond its declared 900-byte padding headroom) and inside the declared rear headroom",
